@@ -39,11 +39,18 @@ ARROWS = [("-->", "r"), ("->", "r"), ("<--", "l"), ("<-", "l"), ("-uses->", "r")
 
 BODY = "\n[A] --> [B]\n[C] as c\nc -> A\n"
 TAGGED = f"some text\n[X] --> [Y]\n@startuml{BODY}@enduml\ntrailing\n[P] --> [Q]\n"
+# further accepted layouts: (what, file content); the text between the tags is BODY in all of them
+ACCEPTED_MORE = [
+    ("a diagram followed by text that mentions @startuml", f"intro\n@startuml{BODY}@enduml\nsee the @startuml reference\n[P] --> [Q]\n"),
+]
 REJECTED = [
     ("no tags at all", "just text\n[A] --> [B]\n"),
     ("only a start tag", "@startuml\n[A] --> [B]\n"),
     ("only an end tag", "[A] --> [B]\n@enduml\n"),
     ("an empty file", ""),
+    ("the end tag before the start tag", "@enduml\n[A] --> [B]\n@startuml\n"),
+    ("a start tag without end tag after a text that mentions @enduml", "intro: diagrams end with @enduml\n@startuml\n[A] --> [B]\n"),
+    ("nothing between adjacent tags", "@startuml@enduml"),
 ]
 
 
@@ -767,7 +774,51 @@ def check_tags(repo: Repo, res: Result, parser: ClassInfo, error_cls: ClassInfo,
                 return f"{fi.relpath}::{fi.qualname}", f"{fi.relpath}:{node.lineno}"
         return parse_key, parse_where
 
+    def slicing_site(interp: A.Interp) -> tuple[str, str]:
+        """The statement that cuts the text between the tags out of the file content (for diagnostics)."""
+        def mentions_tag(fi, node) -> bool:
+            if isinstance(node, ast.Constant) and isinstance(node.value, str) and ("@startuml" in node.value or "@enduml" in node.value):
+                return True
+            if isinstance(node, (ast.Name, ast.Attribute)):
+                fq = repo.resolve_name(fi.module, node)
+                if fq:
+                    m2, _, attr = fq.rpartition(".")
+                    om = repo.modules.get(m2)
+                    c = om.constants.get(attr) if om is not None else None
+                    return isinstance(c, ast.Constant) and isinstance(c.value, str) and ("@startuml" in c.value or "@enduml" in c.value)
+            return False
+
+        for fi in repo.all_functions():
+            if fi.fq not in interp.called or isinstance(fi.node, ast.Lambda):
+                continue
+            docs = {id(n.value) for n in A._own(fi.node) if isinstance(n, ast.Expr) and isinstance(n.value, ast.Constant)}
+            nodes = [n for n in A._own(fi.node) if id(n) not in docs]
+            if not any(mentions_tag(fi, n) for n in nodes):
+                continue
+            cut = [n for n in nodes if isinstance(n, ast.stmt) and any((isinstance(x, ast.Subscript) and isinstance(x.slice, ast.Slice)) or (isinstance(x, ast.Call) and isinstance(x.func, ast.Attribute) and x.func.attr in ("group", "groups", "partition", "rpartition", "split", "rsplit")) for x in ast.walk(n)) and not isinstance(n, (ast.If, ast.For, ast.While, ast.Try, ast.With, ast.FunctionDef))]
+            st = cut[-1] if cut else fi.node
+            return repo.key(fi, st), f"{fi.relpath}:{st.lineno}"
+        return parse_key, parse_where
+
     # accepted content: exactly the text between the tags is scanned
+    for what, content in ACCEPTED_MORE:
+        interp, _v, completed = interpret(repo, parser, A.const(content))
+        construct = f"{parse_key}::content between the tags [{what}]"
+        subjects = [s for s in interp.sites.values() if s.pattern.text in line_patterns]
+        scan_start = min((s.when for s in subjects if getattr(s, "round", None) == interp.round), default=None)
+        hard = [r for r in interp.raised if r.how in ("stmt", "op") and (scan_start is None or r.when < scan_start or not completed)]
+        if not completed:
+            names = sorted({r.name.rsplit('.', 1)[-1] for r in hard})
+            res.add("C06.R4", construct, False, f"a file with {what} is rejected ({', '.join(names) or 'no path returns'}): the diagram between the tags is not parsed", raise_site(interp)[1], kind="regex-language")
+        elif hard or not subjects or not all(s.subject.concrete for s in subjects):
+            res.undecide("C06.R4", construct, f"the text scanned for declarations / arrows is not determined by folding the tag slicing (unmodelled: {interp.unknown[:3]}; may raise: {sorted({r.name for r in hard})})", parse_where)
+        else:
+            seen = sorted({v for s in subjects for v in s.subject.values() if v is not None}, key=repr)
+            want_lines = {l.strip() for l in BODY.splitlines() if l.strip()}
+            got_lines = {l.strip() for v in seen if isinstance(v, str) for l in v.splitlines() if l.strip()}
+            ok = all(isinstance(v, str) for v in seen) and got_lines == want_lines
+            skey, swhere = slicing_site(interp)
+            res.add("C06.R4", construct if ok else skey + f" [{what}]", ok, "the text between the start tag and the last end tag is scanned" if ok else f"for a file with {what} the text scanned for declarations / arrows is {seen!r}, not the diagram between the tags ({BODY!r}): the start tag is not searched before the end tag" + (" - an empty diagram is returned silently" if not got_lines else ""), parse_where if ok else swhere, kind="regex-language")
     interp, _v, completed = interpret(repo, parser, A.const(TAGGED))
     construct = f"{parse_key}::content between the tags"
     subjects = [s for s in interp.sites.values() if s.pattern.text in line_patterns]
@@ -803,7 +854,9 @@ def check_tags(repo: Repo, res: Result, parser: ClassInfo, error_cls: ClassInfo,
         if completed and not hard and (interp.unknown or soft):
             res.undecide("C06.R4", construct, f"folding the tag slicing on a file with {what} finds no raise, but not everything is modelled (unmodelled: {interp.unknown[:3]}; may raise: {sorted({r.name for r in soft})[:3]})", where_)
         elif completed and not hard:
-            res.add("C06.R4", construct, False, f"a file with {what} is accepted: no path raises PumlParsingError (the no-match branch does not raise)", parse_where, kind="dominance")
+            skey, swhere = slicing_site(interp)
+            scanned = sorted({v for s_ in interp.sites.values() if s_.pattern.text in line_patterns and s_.subject.concrete for v in s_.subject.values() if isinstance(v, str)})
+            res.add("C06.R4", f"{skey} [{what}]", False, f"a file with {what} is accepted: no path raises PumlParsingError" + (f"; the text {scanned!r} is parsed as the diagram" if scanned else "") + " (the no-match branch does not raise / the order of the tags is not checked)", swhere, kind="dominance")
         elif completed:
             res.undecide("C06.R4", construct, f"folding the tag slicing on a file with {what} does not decide whether parse() raises (unmodelled: {interp.unknown[:3]})", where_)
         else:
